@@ -147,9 +147,7 @@ func (s *System) Start() error {
 	// 守护系统上下文
 	go func() {
 		<-s.options.Context.Done()
-		s.statusLock.Lock()
-		defer s.statusLock.Unlock()
-		_ = s.stop(false) // 无意义错误
+		_ = s.stop(false) // 无意义错误；stop 内部自行持有 statusLock，此处不可再加锁（否则自死锁）
 	}()
 	return nil
 }
